@@ -58,3 +58,102 @@ Theorem format_operator_never_out_of_fuel :
     Consume.eof_ended ts -> parse_format fc cli_font cli_maxlen ee ts <> Fuel.
 Proof. exact FuelOk.parse_format_never_out_of_fuel. Qed.
 Print Assumptions format_operator_never_out_of_fuel.
+
+(* ---- 'a returned error carries a line range inside the input with start not after end' (ErrRange.v).
+   parse_error_located: every error parse_program returns, on every token stream, is built from two tokens of the stream, the
+   first at an index not after the second (located_in); parsing_functions_errors_located: the same for every parsing function
+   on every suffix of a stream; compile_error_located: every located error Compile.compile returns - parser errors, the two
+   name checks, the emitter's label clash - is located in lex src; lex_lines_monotone / lex_tokens_ordered: lines grow along
+   the token stream; hence parse_error_lines_in_range / compile_error_lines_in_range: 1 <= start line <= end line <= number of
+   lines of the source. accepted_tokens_stand_in_stream: every token kept in an accepted program stands in the stream. ---- *)
+From Pory Require Import ErrRange. Open Scope list_scope. Open Scope Z_scope.
+Theorem lex_lines_monotone :
+  forall (is_letter_hi is_digit_hi is_space_hi : N -> bool) (s : text) (i j : nat) (a b : token),
+  nth_error (lex is_letter_hi is_digit_hi is_space_hi s) i = Some a ->
+  nth_error (lex is_letter_hi is_digit_hi is_space_hi s) j = Some b -> (i <= j)%nat -> tline a <= teline b.
+Proof. exact ErrRange.lex_lines_monotone. Qed.
+Print Assumptions lex_lines_monotone.
+
+Theorem lex_tokens_ordered :
+  forall (is_letter_hi is_digit_hi is_space_hi : N -> bool) (s : text) (i j : nat) (a b : token),
+  nth_error (lex is_letter_hi is_digit_hi is_space_hi s) i = Some a ->
+  nth_error (lex is_letter_hi is_digit_hi is_space_hi s) j = Some b -> (i < j)%nat -> teline a <= tline b.
+Proof. exact ErrRange.lex_tokens_ordered. Qed.
+Print Assumptions lex_tokens_ordered.
+
+Theorem parse_error_located :
+  forall (autovars : list (text * autovar)) (switches : list (text * text)) (ee : bool) (fc : fontcfg) (cli_font : text) 
+    (cli_maxlen : Z) (ts : toks) (e : perr),
+  parse_program autovars switches ee (parse_format fc cli_font cli_maxlen ee) ts = Err e -> located_in ts e.
+Proof. exact ErrRange.parse_error_located. Qed.
+Print Assumptions parse_error_located.
+
+Theorem parsing_functions_errors_located :
+  forall (autovars : list (text * autovar)) (switches : list (text * text)) (ee : bool) (fc : fontcfg) (cli_font : text) 
+    (cli_maxlen : Z) (full pre ts : list token),
+  full = pre ++ ts ->
+  ts <> [] ->
+  (forall (consts : list (text * text)) (f : nat) (script : text) (bs cs : list nat) (e : perr),
+   parse_stmt autovars switches ee (parse_format fc cli_font cli_maxlen ee) consts f script bs cs ts = Err e -> located_in full e) /\
+  (forall (consts : list (text * text)) (f : nat) (single negated : bool) (script : text) (e : perr),
+   bool_expr autovars switches ee (parse_format fc cli_font cli_maxlen ee) consts f single negated script ts = Err e -> located_in full e) /\
+  (forall (consts : list (text * text)) (f : nat) (script : text) (e : perr),
+   command_stmt switches ee (parse_format fc cli_font cli_maxlen ee) consts f script ts = Err e -> located_in full e) /\
+  (forall (consts : list (text * text)) (f : nat) (e : perr),
+   parse_script autovars switches ee (parse_format fc cli_font cli_maxlen ee) consts f ts = Err e -> located_in full e) /\
+  (forall (f : nat) (e : perr), parse_text switches ee (parse_format fc cli_font cli_maxlen ee) f ts = Err e -> located_in full e) /\
+  (forall (f : nat) (e : perr), parse_movement switches ee f ts = Err e -> located_in full e) /\
+  (forall (consts : list (text * text)) (f : nat) (e : perr), parse_mart switches ee consts f ts = Err e -> located_in full e) /\
+  (forall (consts : list (text * text)) (f : nat) (e : perr),
+   parse_mapscripts autovars switches ee (parse_format fc cli_font cli_maxlen ee) consts f ts = Err e -> located_in full e) /\
+  (forall e : perr, parse_raw ts = Err e -> located_in full e) /\
+  (forall (f : nat) (consts : list (text * text)) (e : perr), parse_const f consts ts = Err e -> located_in full e) /\
+  (forall e : perr, parse_format fc cli_font cli_maxlen ee ts = Err e -> located_in full e).
+Proof. exact ErrRange.parsing_functions_errors_located. Qed.
+Print Assumptions parsing_functions_errors_located.
+
+Theorem accepted_tokens_stand_in_stream :
+  forall (autovars : list (text * autovar)) (switches : list (text * text)) (ee : bool) (fc : fontcfg) (cli_font : text) 
+    (cli_maxlen : Z) (ts : toks) (p : program),
+  parse_program autovars switches ee (parse_format fc cli_font cli_maxlen ee) ts = Ok p ->
+  (forall x : textdef, In x (texts p) -> stands_in ts (xtok x)) /\
+  (forall (n : text) (g : bool) (tk : token) (steps : list token), In (TMovement n g tk steps) (tops p) -> stands_in ts tk) /\
+  (forall (body : list stmt) (n : text) (tk : token), In body (ProgWf.bodies_of (tops p)) -> In (n, tk) (NameClash.dlts body) -> stands_in ts tk).
+Proof. exact ErrRange.accepted_tokens_stand_in_stream. Qed.
+Print Assumptions accepted_tokens_stand_in_stream.
+
+Theorem parse_error_lines_in_range :
+  forall (autovars : list (text * autovar)) (switches : list (text * text)) (ee : bool) (fc : fontcfg) (cli_font : text) 
+    (cli_maxlen : Z) (hl hd hs : N -> bool) (src : text) (e : perr),
+  parse_program autovars switches ee (parse_format fc cli_font cli_maxlen ee) (lex hl hd hs src) = Err e ->
+  1 <= els e /\ els e <= ele e <= 1 + nl src.
+Proof. exact ErrRange.parse_error_lines_in_range. Qed.
+Print Assumptions parse_error_lines_in_range.
+
+Theorem compile_error_located :
+  forall (autovars : list (text * autovar)) (switches : list (text * text)) (ee : bool) (fc : fontcfg) (cli_font : text) 
+    (cli_maxlen : Z) (hl hd hs : N -> bool) (optimize : bool) (mpath : option text) (src : text) (e : perr),
+  Compile.compile hl hd hs autovars switches ee fc cli_font cli_maxlen optimize mpath src = Compile.OutErr e -> located_in (lex hl hd hs src) e.
+Proof. exact ErrRange.compile_error_located. Qed.
+Print Assumptions compile_error_located.
+
+Theorem compile_error_lines_in_range :
+  forall (autovars : list (text * autovar)) (switches : list (text * text)) (ee : bool) (fc : fontcfg) (cli_font : text) 
+    (cli_maxlen : Z) (hl hd hs : N -> bool) (optimize : bool) (mpath : option text) (src : text) (e : perr),
+  Compile.compile hl hd hs autovars switches ee fc cli_font cli_maxlen optimize mpath src = Compile.OutErr e ->
+  1 <= els e /\ els e <= ele e <= 1 + nl src.
+Proof. exact ErrRange.compile_error_lines_in_range. Qed.
+Print Assumptions compile_error_lines_in_range.
+
+Theorem accepted_token_lines_in_range :
+  forall (autovars : list (text * autovar)) (switches : list (text * text)) (ee : bool) (fc : fontcfg) (cli_font : text) 
+    (cli_maxlen : Z) (hl hd hs : N -> bool) (src : text) (p : program),
+  parse_program autovars switches ee (parse_format fc cli_font cli_maxlen ee) (lex hl hd hs src) = Ok p ->
+  (forall x : textdef, In x (texts p) -> 1 <= tline (xtok x) /\ tline (xtok x) <= teline (xtok x) <= 1 + nl src) /\
+  (forall (n : text) (g : bool) (tk : token) (steps : list token),
+   In (TMovement n g tk steps) (tops p) -> 1 <= tline tk /\ tline tk <= teline tk <= 1 + nl src) /\
+  (forall (body : list stmt) (n : text) (tk : token),
+   In body (ProgWf.bodies_of (tops p)) -> In (n, tk) (NameClash.dlts body) -> 1 <= tline tk /\ tline tk <= teline tk <= 1 + nl src).
+Proof. exact ErrRange.accepted_token_lines_in_range. Qed.
+Print Assumptions accepted_token_lines_in_range.
+
